@@ -46,6 +46,19 @@ long checkRaces(Ctx& ctx) {
 }
 
 // ---------------------------------------------------------------------------------------------
+void checkComplete(Ctx& ctx, const TreeView& v, const std::string& cls) {
+    for (int t = 0; t < v.nbTrees; ++t) {
+        std::vector<int> seen(ctx.inputs[t].size(), 0);
+        long held = 0;
+        for (const LeafRec& l : v.leaves) if (l.tree == t) for (long i = 0; i < l.n; ++i) {
+            held += 1;
+            if (l.indexes[i] >= 0 && size_t(l.indexes[i]) < seen.size()) seen[size_t(l.indexes[i])] += 1;
+        }
+        if (held != long(seen.size())) { ctx.addViolation(cls, "particles-missing", "tree " + std::to_string(t) + " holds " + std::to_string(held) + " particles, " + std::to_string(seen.size()) + " were inserted"); continue; }
+        for (size_t i = 0; i < seen.size(); ++i) if (seen[i] != 1) { ctx.addViolation(cls, "particles-missing", "particle " + std::to_string(i) + " of tree " + std::to_string(t) + " is held " + std::to_string(seen[i]) + " times"); break; }
+    }
+}
+
 std::string locate(const TreeView& v, size_t bufIndex, size_t offset) {
     const BufRec& b = v.bufs[bufIndex];
     const unsigned char* p = b.ptr + offset;
